@@ -1,6 +1,7 @@
 import Golib.Model.C10Ring
 import Golib.Model.C10Sync
 import Golib.Model.C10Large
+import Golib.Model.C10Copy
 
 namespace Golib.C10
 open Golib.Proto
@@ -10,6 +11,8 @@ def runCase (hdr : List String) (ops : List String) : List String :=
   match hdr with
   | "ring" :: rest => runRingCase rest ops
   | "ringL" :: rest => runLargeCase rest ops
+  | "ringC" :: rest => runRingCopyCase rest ops
+  | "syncC" :: rest => runSyncCopyCase rest ops
   | "sync" :: rest => runSyncCase rest ops
   | "synccap" :: rest => runCapCase rest ops
   | _ => "bad-op" :: ops.map fun _ => "bad-op"
